@@ -15,7 +15,7 @@ VERIF = os.path.dirname(os.path.dirname(os.path.abspath(__file__)))
 REPO = os.environ.get("VERIF_REPO", "/repo")
 COQ = os.path.join(VERIF, "coq")
 GEN = os.path.join(COQ, "Gen")
-EVID = os.path.join(VERIF, "evidence")
+EVID = os.environ.get("VERIF_EVID", os.path.join(VERIF, "evidence"))   # (tools/try_mutant.sh redirects it)
 REPLAY = os.path.join(EVID, "replay")
 NPROC = int(os.environ.get("VERIF_JOBS", "16"))
 COQ_TIMEOUT = int(os.environ.get("VERIF_COQ_TIMEOUT", "900"))
@@ -176,9 +176,7 @@ def coq_run_cases(tag, imports, func, intype, cases, shard=300, preamble=""):
     Evaluates `func input` inside Coq (vm_compute) for every case and returns
     (list of (case index, model output) for every disagreement, errors list)."""
     os.makedirs(GEN, exist_ok=True)
-    for f in os.listdir(GEN):
-        if f.startswith("cases_%s_" % tag):
-            os.unlink(os.path.join(GEN, f))
+    tag = "%s_p%d" % (tag, os.getpid())          # concurrent checks (other trees, other tiers) must not share files
     shards = [cases[i:i + shard] for i in range(0, len(cases), shard)]
     names = []
     for k, sh in enumerate(shards):
@@ -208,18 +206,20 @@ def coq_run_cases(tag, imports, func, intype, cases, shard=300, preamble=""):
             continue
         for idx, vals in r:
             mism.append((k * shard + idx, vals))
-    for name in names:   # keep sources of Gen (small), drop compiled output
-        for ext in (".vo", ".vos", ".vok", ".glob"):
-            p = os.path.join(GEN, name + ext)
-            if os.path.exists(p):
-                os.unlink(p)
+    bad_shards = {idx // shard for idx, _ in mism}
+    for k, name in enumerate(names):   # keep the sources of disagreeing shards only
+        exts = [".vo", ".vos", ".vok", ".glob", ".aux"] + ([] if (k in bad_shards or outs[k][0] != 0) else [".v"])
+        for ext in exts:
+            for p in (os.path.join(GEN, name + ext), os.path.join(GEN, "." + name + ext)):
+                if os.path.exists(p):
+                    os.unlink(p)
     return mism, errors
 
 
 def coq_eval(tag, imports, expr, timeout=COQ_TIMEOUT):
     """Evaluate one expression of type list Z inside Coq; returns list[int] or None."""
     os.makedirs(GEN, exist_ok=True)
-    name = "eval_%s" % tag
+    name = "eval_%s_p%d" % (tag, os.getpid())
     with open(os.path.join(GEN, name + ".v"), "w") as f:
         f.write("From Bobo Require Import Base.Prelude %s.\n" % imports)
         f.write("Eval vm_compute in (%s).\n" % expr)
